@@ -99,6 +99,22 @@ func genTextOps(r *Rng, i int, tier string) []Op {
 			ops = append(ops, Op{line, true})
 			ops = append(ops, Op{"parsedur " + impl.Exec(line), true})
 		case 2: // random duration-like strings
+			if r.Chance(1, 3) {
+				// a well-formed duration (and list) with one bit of one byte flipped — the unit
+				// byte most of the time: bytes outside ASCII, neighbouring letters, the other case
+				num := 1 + r.Intn(5000)
+				u := "smhdwy"[r.Intn(6)]
+				good := []byte(fmt.Sprintf("%d%c", num, u))
+				pos := len(good) - 1
+				if r.Chance(1, 4) {
+					pos = r.Intn(len(good))
+				}
+				good[pos] ^= 1 << uint(r.Intn(8))
+				bad := string(good)
+				ops = append(ops, Op{"parsedur " + hexOfString(bad), true}, Op{"parsearch " + hexOfString("1s:"+bad), true},
+					Op{"parsearchs " + hexOfString("1s:60s,1m:"+bad), true})
+				break
+			}
 			n := r.Intn(12)
 			var b strings.Builder
 			for j := 0; j < n; j++ {
